@@ -1,6 +1,7 @@
 package checks
 
 import (
+	"path/filepath"
 	"sync/atomic"
 	"io"
 	"context"
@@ -124,6 +125,12 @@ func runC11(c *Ctx) bool {
 		// returns and leaves nothing behind
 		for _, fam := range []string{"markdown", "root"} {
 			emit(&Case{Kind: "goexit-callback", Opt: map[string]string{"op": "walk", "family": fam}, Seed: gen.New(c.Seed, 1113, uint64(idx)).Uint64()})
+		}
+		// (7d) the filesystem refuses at the verify / mkdir stage for EVERY root at once (the target
+		// is a regular file: ENOTDIR; root names of 300 bytes: ENAMETOOLONG): many workers fail at
+		// the same moment with an error that is not "missing", and all of them must get away
+		for _, op := range []string{"verify", "mkdir"} {
+			emit(&Case{Kind: "fs-refuses-every-root", Opt: map[string]string{"op": op}, Seed: gen.New(c.Seed, 1114, uint64(idx)).Uint64()})
 		}
 		// (8) a writer that accepts nothing (its first Write blocks) while the context expires or is cancelled
 		for _, op := range []string{"text", "json", "yaml", "dryrun"} {
@@ -800,6 +807,45 @@ func evalC11(c *Ctx, cs *Case, lm *mon.LeakMonitor) {
 				}
 			}
 			cancel()
+			if !ok {
+				recycle()
+			}
+		}
+
+	case cs.Kind == "fs-refuses-every-root":
+		for i := 0; i < c.Pick(20, 80); i++ {
+			nRoots := []int{3, 5, 12, 30}[i%4]
+			var sb strings.Builder
+			long := i%2 == 1
+			for k := 0; k < nRoots; k++ {
+				name := "root" + strconv.Itoa(k)
+				if long {
+					name += strings.Repeat("n", 300)
+				}
+				sb.WriteString("- " + name + "\n  - kid\n")
+			}
+			doc := sb.String()
+			j, err := mon.NewJail(c.TmpDir, true)
+			if err != nil {
+				return
+			}
+			target := j.Target
+			if !long {
+				target = filepath.Join(filepath.Dir(j.Target), "sentinel-file") // a regular file
+			}
+			e := &c11Exec{op: op, doc: []byte(doc), ctx: context.Background(), cbFailAt: -1, target: target, sched: mon.NewSched(profile, r.Uint64())}
+			cs.N = []int{i}
+			cs.SetDoc(doc)
+			c.Rejournal(cs)
+			e.run(lm)
+			j.Remove()
+			c.Eval(key("fsrefuse"+strconv.Itoa(i)), true)
+			c.Count("calls_where_the_filesystem_refused_every_root", 1)
+			det := map[string]any{"roots": nRoots, "run": i, "refusal": map[bool]string{true: "ENAMETOOLONG", false: "ENOTDIR"}[long], "gomaxprocs": procs}
+			ok := c11Judge(c, cs, e, det)
+			if e.guard.Returned && e.err == nil {
+				c.Violation(cs, "fs-refusal.returned-nil", op, det)
+			}
 			if !ok {
 				recycle()
 			}
